@@ -4,7 +4,7 @@
 //! numeric field sits at limit-1 / limit / limit+1 / 2*limit (both signs). The design is compiled by the real
 //! `fontc::generate_font` in THIS binary's profile (dev: overflow checks on; release: off), the font is dumped,
 //! and the same case is compiled by the OTHER profile's harness binary (child process) whose outcome digest is
-//! printed on the same line. The Lean oracle (lean/Driver/C19.lean) decides: error, or every source value is
+//! printed on the same line (the other binary is the sibling `target/<other profile>/<same name>`). The Lean oracle (lean/Driver/C19.lean) decides: error, or every source value is
 //! found unchanged in the font (decomposition fallback allowed); both profiles agree.
 use crate::e2e::{build, design, dump, write};
 use crate::rng::Rng;
